@@ -87,6 +87,13 @@ def run_c06(ctx):
         m.argnames.append("t")
         m.fn = calllog.make_fn(kind, m.argnames)
         m.sc.farmer = fspec.describe()
+    if role == "harvester":
+        # an unrecorded 'version' argument: a second crop can then disagree with
+        # what the first one harvested, which is what overwrite policies are for
+        fspec.resources["v"] = 0
+        m.argnames.append("v")
+        m.fn = calllog.make_fn(kind, m.argnames)
+        m.sc.farmer = fspec.describe()
     ctx.t("farmer", fspec.describe())
     twin_name = None
     if fspec.data_name:
@@ -106,11 +113,19 @@ def run_c06(ctx):
         (a, tuple(v)) for a, v in sw.combos)
     deferred = []
     for rnd in range(rounds):
+        conflict = False
         if rnd == 1:
             # a second crop into the same storage: same sweep again (identical data
-            # merges; for a sampler n more rows)
+            # merges; for a sampler n more rows) - or, for a harvester, a new
+            # 'version' of the function so that every point conflicts
             m.NAME = "crp2"
             m.location = os.path.join(m.root, ".xyz-crp2")
+            if role == "harvester" and t.flag(1, 2, "second-crop-conflicts"):
+                fspec.resources["v"] = 1
+                if twin["f"] is not None:
+                    twin["f"].runner.resources = dict(fspec.resources)
+                conflict = policy is None
+                ctx.t("second crop uses version 1 of the function")
         seed = t.choose(1000, "np-seed-twin")
         # ------------------------------------------------------------ crop side
         if role == "sampler":
@@ -137,9 +152,37 @@ def run_c06(ctx):
                 return c, c.reap(overwrite=policy)
             return c, c.reap()
 
-        (c, got), _ = m.call("reaper", reap, oracle="reap-raised")
+        val_, exc_ = m.call("reaper", reap, oracle="reap-raised", must_succeed=not conflict)
         # ------------------------------------------------------------ twin side
         sow_const = m.sow_constants()
+        if conflict:
+            # default policy + conflicting data: both the crop's reap and the
+            # direct harvest must refuse, and leave the same file behind
+            if exc_ is None or type(exc_).__name__ != "MergeError":
+                raise Violation("conflicting-reap-not-refused",
+                                "second crop with conflicting data and overwrite=None: reap "
+                                "returned / raised {!r}".format(exc_))
+            _, exc2 = m.call("direct-run", lambda: _direct_conflict(get_twin(), combos_given, sw, sow_const),
+                             must_succeed=False)
+            if exc2 is None or type(exc2).__name__ != "MergeError":
+                raise HarnessError("twin did not conflict: {!r}".format(exc2))
+            d1, _ = m.call("fresh-reader", lambda: xyzpy.load_ds(fspec.data_name, engine=fspec.engine),
+                           oracle="load-raised")
+            d2, _ = m.call("fresh-reader", lambda: xyzpy.load_ds(twin_name, engine=fspec.engine),
+                           oracle="load-raised")
+            a, b = norm_ds(d1), norm_ds(d2)
+            if deferred:
+                b = b.copy()
+                for k_ in sow_const:
+                    b.attrs.pop(k_, None)
+            if not a.identical(b):
+                raise Violation("harvested-file-differs-from-direct/after-refused-merge",
+                                explain_ds_diff(a, b))
+            if not G.rexists(m.location):
+                raise Violation("crop-deleted-by-refused-reap", "the conflicting crop is gone")
+            ctx.stats["conflicting-second-crop-refused"] += 1
+            continue
+        (c, got) = val_
 
         def direct():
             f = get_twin()
@@ -237,6 +280,17 @@ def run_c06(ctx):
     ctx.key = repr((role, kind, m.sc.N, m.B, m.sc.api, fspec.describe(), rounds, to_df, policy))
     if deferred:
         raise deferred[0]
+
+
+def _direct_conflict(f, combos_given, sw, sow_const):
+    kw = {"verbosity": 0}
+    if sow_const:
+        kw["constants"] = dict(sow_const)
+    if sw.cases and not sw.combos:
+        return f.harvest_cases([dict(c_) for c_ in sw.cases], **kw)
+    if sw.cases:
+        kw["cases"] = [dict(c_) for c_ in sw.cases]
+    return f.harvest_combos(combos_given, **kw)
 
 
 def _sow_samples(m, n, seed):
